@@ -646,6 +646,14 @@ impl Decryptor {
         }
     }
 
+    /// verification accessor: number of secret-key powers currently cached (takes the read lock)
+    #[cfg(feature = "verif")]
+    pub fn verif_sk_array_powers(&self) -> usize {
+        let context_data = self.context.key_context_data().unwrap();
+        let d = context_data.parms().poly_modulus_degree() * context_data.parms().coeff_modulus().len();
+        self.secret_key_array.read().unwrap_or_else(|e| e.into_inner()).len() / d
+    }
+
     fn compute_secret_key_array(&self, max_power: usize) {
         let context_data = self.context.key_context_data().unwrap();
         let parms = context_data.parms();
@@ -653,6 +661,7 @@ impl Decryptor {
         let coeff_modulus_size = coeff_modulus.len();
         let coeff_count = parms.poly_modulus_degree();
 
+        #[cfg(feature = "verif")] crate::verif::sched::yield_at(0);
         // Aquire read lock
         let read_lock = self.secret_key_array.read().unwrap();
         assert!(read_lock.len() % (coeff_count * coeff_modulus_size) == 0);
@@ -671,6 +680,7 @@ impl Decryptor {
         secret_key_array[..old_size * poly_size].copy_from_slice(&read_lock[..old_size * poly_size]);
         // Drop lock
         drop(read_lock);
+        #[cfg(feature = "verif")] crate::verif::sched::yield_at(1);
         
         // Since all of the key powers in secret_key_array_ are already NTT transformed, to get the next one we simply
         // need to compute a dyadic product of the last one with the first one [which is equal to NTT(secret_key_)].
@@ -686,6 +696,7 @@ impl Decryptor {
             }
         }
 
+        #[cfg(feature = "verif")] crate::verif::sched::yield_at(2);
         // Aquire write lock
         let mut write_lock = self.secret_key_array.write().unwrap();
 
@@ -701,6 +712,7 @@ impl Decryptor {
         *write_lock = secret_key_array;
         
         // Lock is dropped automatically
+        #[cfg(feature = "verif")] { drop(write_lock); crate::verif::sched::yield_at(3); }
     }
 
     // Compute c_0 + c_1 *s + ... + c_{count-1} * s^{count-1} mod q.
@@ -718,6 +730,7 @@ impl Decryptor {
 
         // Make sure we have enough secret key powers computed
         self.compute_secret_key_array(encrypted_size - 1);
+        #[cfg(feature = "verif")] crate::verif::sched::yield_at(4);
 
         let secret_key_array_binding = self.secret_key_array.read().unwrap();
         let secret_key_array = secret_key_array_binding.as_ref();
